@@ -169,7 +169,7 @@ fn check_result(rep: &mut Report, clause: &str, opname: &str, classes: &str, got
 
 pub fn run(ctx: &Ctx) -> (Report, Meta) {
     let meta = Meta::new(
-        "exhaustive enumeration: sizes n=1..8, storages {Identity, Full, Banded(ml,mu) for all ml,mu in 0..n-1 (0..n for n<=5)}, all ordered operand-storage pairs for + - += -= (value and reference forms), 5 scalars for component_add/sub/mul(_mut), every constructor incl. the compiling macro forms, every in-band / out-of-band / Identity write; plus random operation sequences (length <= 12) against the dense model; non-trivial = operand pair with different storage class or different bandwidths (distinct by n, storages)",
+        "exhaustive enumeration: sizes n=1..8, storages {Identity, Full, Banded(ml,mu) for all ml,mu in 0..n-1 (0..n for n<=5)}, all ordered operand-storage pairs for + - += -= (value and reference forms), 5 scalars for component_add/sub/mul(_mut), every constructor incl. the compiling macro forms, every in-band / out-of-band / Identity write; is_identity on a unit diagonal with every storable position perturbed in turn; plus random operation sequences (length <= 12) against the dense model; non-trivial = operand pair with different storage class or different bandwidths (distinct by n, storages)",
     )
     .assume("every Matrix operation is a single IEEE operation per entry, so results are compared with ==")
     .assume("the bracket form matrix![[..],[..]] does not compile and is therefore not executable (reported in DESIGN.md only)")
@@ -325,6 +325,72 @@ pub fn run(ctx: &Ctx) -> (Report, Meta) {
         }
     });
     rep.exhaustive = Some(ctx.thorough());
+
+    // ---------------- is_identity near the identity ----------------
+    // unit diagonal written into Full / Banded storage, then every storable off-diagonal position perturbed in turn
+    // (results of arithmetic rarely have a unit diagonal, so the clause above hardly ever sees the interesting side)
+    let mut irep = Report::new("C17");
+    for n in 1..=8usize {
+        let case_id = format!("is_identity/{}", n);
+        if !ctx.want(&case_id) {
+            continue;
+        }
+        for st in storages(n, n <= 5) {
+            if matches!(st, St::Id) {
+                continue;
+            }
+            let res = catch_unwind(AssertUnwindSafe(|| {
+                let mut bad: Vec<String> = Vec::new();
+                let mut m = match st {
+                    St::Full => Matrix::full(n, n),
+                    St::Band(ml, mu) => Matrix::banded(n, ml, mu),
+                    St::Id => unreachable!(),
+                };
+                for i in 0..n {
+                    m[(i, i)] = 1.0;
+                }
+                let mut checks = 1u64;
+                if !m.is_identity() {
+                    bad.push("unit diagonal, zero elsewhere: is_identity() = false".into());
+                }
+                for i in 0..n {
+                    for j in 0..n {
+                        let inband = match st {
+                            St::Full => true,
+                            St::Band(ml, mu) => (i as isize - j as isize) <= ml as isize && (j as isize - i as isize) <= mu as isize,
+                            St::Id => false,
+                        };
+                        if !inband {
+                            continue;
+                        }
+                        for &v in &[-2.0, 1e-300, -0.0] {
+                            let old = m[(i, j)];
+                            m[(i, j)] = if i == j { 1.0 + v } else { v };
+                            let want = if i == j { 1.0 + v == 1.0 } else { v == 0.0 };
+                            checks += 1;
+                            if m.is_identity() != want {
+                                bad.push(format!("entry ({},{}) set to {:e}: is_identity() = {} but the dense definition says {}", i, j, m[(i, j)], !want, want));
+                            }
+                            m[(i, j)] = old;
+                        }
+                    }
+                }
+                (bad, checks)
+            }));
+            let case = json!({"n": n, "storage": format!("{:?}", st)});
+            match res {
+                Ok((bad, checks)) => {
+                    irep.evals(checks);
+                    irep.count("is_identity_near_identity_checks", checks);
+                    if let Some(b) = bad.first() {
+                        irep.violate(&format!("C17/is_identity/perturbed_identity/{}", if matches!(st, St::Full) { "Full" } else { "Banded" }), format!("{} ({} disagreements)", b, bad.len()), &case_id, case);
+                    }
+                }
+                Err(p) => irep.violate("C17/no_panic/is_identity/perturbed_identity", crate::probe::panic_message(&p), &case_id, case),
+            }
+        }
+    }
+    rep.merge(irep);
 
     // ---------------- constructors ----------------
     let mut crep = Report::new("C17");
